@@ -17,11 +17,17 @@ import CpProps.C18a
   4. framing and classes   record: constant; handshake framing: inner + constant; ClientHello (all loops, the variant
                            walk of every extension, the SCSV fold), ServerHello, Certificate, the handshake variant:
                            `A * len + B` with A, B computed from the regenerated tables
-  5. depth                 the class graph of the TLS model is acyclic, call chains have at most 7 classes;
+  5. depth                 the class graph of the TLS model is acyclic, call chains have at most 8 classes;
                            the text scanner's linear bound is C18's `array_ticks_linear`
 
   NOT claimed: bytes copied inside one step (`unparsed_bytes[parsed_length:]` is quadratic in bytes for many small
   items; `C18.search_bytes_quadratic` for the text scanner).
+  NOT claimed either: the body parsers of the extension classes with structured bodies (CpModel/Tls/Ext2.lean:
+  server_name, ALPN/ALPS, NPN, status_request, key_share, token_binding, SCT list) — they cost 0 ticks in the cost model
+  (`extBodyTicks (.ext2 _) = 0`) and the driver reports an input that reaches one of them as outside the model
+  (`walkExtOutside`).  They are not confined to the declared extension length; a name list or SCT list that reads far
+  beyond its extension and is then rejected as an invalid value (the extension kept by the fallback class) is NOT paid
+  for by the bytes the extension consumes, so "one extension is paid for by the bytes it consumes" is false for them.
 -/
 namespace Cp.C19
 open Cp Cp.Codec Cp.Tls Cp.Cost
@@ -209,15 +215,16 @@ theorem handshakeVariant_linear (bs : Bytes) :
 theorem class_graph_acyclic : ∀ c : Cls, ∀ d ∈ c.calls, d.rank < c.rank :=
   fun c => rank_decreases c (all_complete c)
 
-/-- DEPTH.  Every chain of nested class parsers of the TLS model has at most 7 classes (handshake variant → hello →
-extension vector → extension variant → extension class → coded vector → item). -/
-theorem depth_bounded (c : Cls) (l : List Cls) (h : CallChain (c :: l)) : (c :: l).length ≤ 7 := by
+/-- DEPTH.  Every chain of nested class parsers of the TLS model has at most 8 classes (handshake variant → hello →
+extension vector → extension variant → extension class → key share / SCT vector → entry → group code or opaque
+field; 7 through the classes with coded vectors). -/
+theorem depth_bounded (c : Cls) (l : List Cls) (h : CallChain (c :: l)) : (c :: l).length ≤ 8 := by
   have h1 := callChain_length_le l c h
-  have h2 := rank_le_six c
+  have h2 := rank_le_seven c
   omega
 
 /-- the same, computed: the longest chain from every class, with fuel = number of classes -/
-theorem depth_computed : ∀ c ∈ Cls.all, Cls.depth Cls.all.length c ≤ 7 := by decide
+theorem depth_computed : ∀ c ∈ Cls.all, Cls.depth Cls.all.length c ≤ 8 := by decide
 
 /-- the text scanner (`ParserText._parse_string_array`, behind every header field and TXT policy parser) is linear
 in interpreter steps: C18's theorem, restated -/
@@ -257,6 +264,9 @@ example : 5 ≤ recordTicks [0x16, 0x03, 0x01, 0x00, 0x01, 0xaa] := by decide
 example : CallChain [.handshakeVariant, .clientHello, .extensionsClient, .extensionVariantClient, .extensionParsed,
     .codedVector, .codedItem] :=
   ⟨by decide, by decide, by decide, by decide, by decide, by decide, trivial⟩
-example : Cls.depth Cls.all.length .handshakeVariant = 7 := by decide
+example : CallChain [.handshakeVariant, .serverHello, .extensionsServer, .extensionVariantServer, .extensionStructured,
+    .sctList, .sct, .opaqueLeaf] :=
+  ⟨by decide, by decide, by decide, by decide, by decide, by decide, by decide, trivial⟩
+example : Cls.depth Cls.all.length .handshakeVariant = 8 := by decide
 
 end Cp.C19
